@@ -1,6 +1,24 @@
 package parallel
 
-// VerifC20Cover: order-independent exact-cover harness for Execute with an explicit worker limit.
+// Harnesses for C20 (parallel range splitter). Entry points are executed symbolically by
+// /verif/gosmt and natively (replay) with the same source.
+
+func c20work(n, p int, cnt, hits *int) func(int, int) {
+	return func(s, e int) {
+		vAssert(0 <= s, "range start non-negative")
+		vAssert(s < e, "range non-empty")
+		vAssert(e <= n, "range end in bounds")
+		vLock()
+		*cnt++
+		if s <= p && p < e {
+			*hits++
+		}
+		vUnlock()
+	}
+}
+
+// VerifC20Cover: explicit worker limit m (concrete per run), n and the probe index p symbolic.
+// Order-independent exact cover: the number of ranges containing p is exactly 1.
 func VerifC20Cover() {
 	n := vInt("n")
 	m := vParamInt("m")
@@ -8,17 +26,74 @@ func VerifC20Cover() {
 	vAssume(0 <= n && n <= 1<<62)
 	vAssume(0 <= p && p < n)
 	cnt, hits := 0, 0
-	Execute(n, func(s, e int) {
-		vAssert(0 <= s, "range start non-negative")
-		vAssert(s < e, "range non-empty")
-		vAssert(e <= n, "range end in bounds")
-		cnt++
-		if s <= p && p < e {
-			hits++
-		}
-	}, m)
+	Execute(n, c20work(n, p, &cnt, &hits), m)
+	vMark("returned")
 	vAssert(hits == 1, "index p covered exactly once")
 	vAssert(cnt <= m, "at most m invocations")
 	vAssert(cnt <= n, "at most n invocations")
+	vReach("end")
+}
+
+// VerifC20Default: no explicit limit (k=0) or an ignored list of two limits (k=2): runtime.NumCPU() workers.
+func VerifC20Default() {
+	n := vInt("n")
+	k := vParamInt("k")
+	cpus := vParamInt("numcpu")
+	p := vInt("p")
+	vAssume(0 <= n && n <= 1<<62)
+	vAssume(0 <= p && p < n)
+	cnt, hits := 0, 0
+	if k == 0 {
+		Execute(n, c20work(n, p, &cnt, &hits))
+	} else {
+		Execute(n, c20work(n, p, &cnt, &hits), 1, 3)
+	}
+	vMark("returned")
+	vAssert(hits == 1, "index p covered exactly once (default worker count)")
+	vAssert(cnt <= cpus, "at most NumCPU invocations")
+	vAssert(cnt <= n, "at most n invocations")
+	vReach("end")
+}
+
+// VerifC20Zero: n = 0 starts no invocation at all.
+func VerifC20Zero() {
+	m := vParamInt("m")
+	cnt := 0
+	Execute(0, func(s, e int) {
+		vLock()
+		cnt++
+		vUnlock()
+	}, m)
+	vAssert(cnt == 0, "n=0: work never invoked")
+	vReach("end")
+}
+
+// VerifC20Join: Execute returns only after every invocation has returned. Natively the work
+// function sleeps before setting its completion flag; symbolically the join is decided on the
+// happens-before structure (WaitGroup Add/Done/Wait events) recorded by the executor.
+func VerifC20Join() {
+	n := vInt("n")
+	m := vParamInt("m")
+	vAssume(0 <= n && n <= 1<<62)
+	started, finished := 0, 0
+	Execute(n, func(s, e int) {
+		vLock()
+		started++
+		vUnlock()
+		vSleep()
+		vLock()
+		finished++
+		vUnlock()
+	}, m)
+	vMark("returned")
+	vLock()
+	f, st := finished, started
+	vUnlock()
+	exp := m
+	if n < m {
+		exp = n
+	}
+	vAssert(f == exp, "every invocation has returned when Execute returns")
+	vAssert(st == exp, "every invocation has started when Execute returns")
 	vReach("end")
 }
